@@ -24,7 +24,7 @@ type scopeGen struct {
 }
 
 func newScopeGen(r *lib.Rng) *scopeGen {
-	return &scopeGen{r: r, pool: []string{"a", "b", "c", "x", "y", "v"}, gpool: []string{"G1", "G2", "gfun", "print", "a", "x"}}
+	return &scopeGen{r: r, pool: []string{"a", "b", "c", "x", "y", "v", "_w"}, gpool: []string{"G1", "G2", "gfun", "print", "a", "x"}}
 }
 
 func (g *scopeGen) line(s string) { g.lines = append(g.lines, strings.Repeat("  ", g.indent)+s) }
